@@ -156,7 +156,9 @@ def leg_matches(tok, leg, kind):
         return ",".join(toks) == tok
     if tok == "syn":
         return None   # model makes no prediction (not a single template literal)
-    if kind in ("tag", "enum"):
+    if kind == "cov":
+        return end in (None, "ok") and "s" + text.decode("utf-8", "replace").replace(" ", "_").replace("\n", "|") == tok
+    if kind in ("tag", "enum", "resv"):
         return end is None and "s" + text.decode("utf-8", "replace").replace(" ", "_").replace("\n", "|") == tok
     if tok == "trap":
         return text == b"" and bool(end) and end.startswith("trap:")
@@ -407,6 +409,29 @@ def gen_veqr(rng):
     return f"veqr {f(a)} {f(b)}"
 
 
+# words that are special in JavaScript / TypeScript (reserved, strict-mode reserved, contextual, globals the
+# emitted code or the CommonJS wrapper relies on) — each is used as every kind of samlang identifier, every run
+JS_WORDS = """break case catch class const continue debugger default delete do else enum export extends false finally for
+function if import in instanceof new null return super switch this throw true try typeof var void while with
+yield let static implements interface package private protected public await async of get set arguments eval undefined
+abstract any as asserts bigint boolean declare from global infer is keyof module namespace never number object out
+override readonly require satisfies symbol type unique unknown using accessor exports console parseInt isNaN
+globalThis window process length name prototype constructor toString valueOf hasOwnProperty""".split()
+
+
+COV_FAMILY = ['vecopt', 'ifempty', 'unitloop', 'closures', 'refne', 'nostr']
+
+
+def cov_family():
+    """deterministic whole programs for code-generation paths no micro-operation reaches"""
+    return ["cov " + n for n in COV_FAMILY]
+
+
+def resv_family():
+    """deterministic (seed-independent)"""
+    return ["resv " + hexs(w) for w in JS_WORDS]
+
+
 ENUM_SHAPES = {1: 3, 2: 4, 3: 2, 4: 3, 5: 1}
 
 
@@ -533,7 +558,7 @@ def nontrivial(line, impl_ans):
         return len(t) >= 3
     if t[0] == "veq":
         return t[1] != "-" or t[2] != "-"
-    if t[0] in ("seq", "tag", "vecr", "veqr", "enum"):
+    if t[0] in ("seq", "tag", "vecr", "veqr", "enum", "resv", "cov"):
         return True
     return False
 
@@ -926,6 +951,7 @@ def dense_lines():
     out += [f"seq {hexs(a)} {x} {hexs(b)} {y}" for a, x in strs for b, y in strs]
     out += ["vecr push:0 push:2 push:3 get:1 get:2 set:0:3 get:0 pop pop pop pop", "vecr get:0", "vecr push:1 len pop len",
             "veqr 2 3", "veqr 2 2", "veqr 0,1 0,1,2", "veqr - 0", "veqr - -", "veqr 0,2 0,3"]
+    out += resv_family() + cov_family()
     out += [f"enum {sh} {k} {a} {b}" for sh, n in ENUM_SHAPES.items() for k in range(n) for a, b in [(1, 3), (3, 1), (0, 5)]]
     out += [f"tag box {n}" for n in range(-2, 8)] + [f"tag vec {n}" for n in ["-", 0, 1, 2, 3, 5]] + ["tag none 0", "tag other 0"]
     out += ["vec new:of:7 get:0 push:1 cap res:20 cap len pop pop len", "vec new:cap:16 cap len push:3 cap pop len",
@@ -959,7 +985,7 @@ def run_runtime_pins():
 def run_extractor():
     """both translators (operator table, string-constant printers); rc != 0 if either fails"""
     rc, log = 0, ""
-    for script in ("c04_tsops.py", "c04_strings.py"):
+    for script in ("c04_tsops.py", "c04_strings.py", "c04_reserved.py"):
         p = subprocess.run([sys.executable, os.path.join(common.VERIF, "extract", script)],
                            stdout=subprocess.PIPE, stderr=subprocess.STDOUT)
         rc = rc or p.returncode
@@ -1006,6 +1032,8 @@ def run(ctx):
         check_lines(st, gen_stream(rng.fork(), ctx.scale(700, 12000)), f"generated seed={ctx.seed}")
         probes = FIXED_PROBES + gen_probes(rng.fork(), ctx.scale(6, 120))
         check_lines(st, [l for _, l in probes], "finding probes + malformed stream")
+        check_lines(st, resv_family(), "JavaScript-special words as identifiers (deterministic family)")
+        check_lines(st, cov_family(), "coverage-guided whole programs (deterministic family)")
         if not ctx.quick:
             check_lines(st, dense_lines(), "dense")
         stats = program_oracle(ctx, st, ctx.scale(60, 1500))
@@ -1036,6 +1064,7 @@ def run(ctx):
         "engine limits (stack depth, memory) are not part of the comparison",
         "Str.toInt on input that is not a canonical in-range decimal is implementation-defined by the specification and excluded from the oracle (still compared against the model)"]
     return ctx.finish(res, trusted=common.TRUSTED_COMMON + [
+        "extract/c04_reserved.py (TS_RESERVED_WORDS and the `contains` lookup of push_variable_name into Generated/TsReserved.lean); Generated/Keywords.lean (samlang keyword tokens, C05's translator) is imported by Model/BackendsNames.lean only",
         "extract/c04_tsops.py (regex translator of the operator tables of hir.rs/lir.rs/wasm.rs into Generated/TsOps.lean) and extract/c04_strings.py (lexer escape letters, wasm escape table, TypeScript rewrites into Generated/StrEsc.lean), cross-checked by the execution of the same operators / literals",
         "hand-written models of the two runtimes (Model/Backends.lean): JS template-literal cooking, byte-wise decoding in loader.js, Str.fromInt/toInt, Vec with i31 boxing; tied by execution on Node >= 22",
         "Node 22 / V8 as the execution oracle of both emitted programs",
